@@ -20,10 +20,11 @@ def toReqsFrom (c : DefaultReqs.Cfg) (act : Nat → Bool) : Nat → List ReqKind
 /-- ids are positions in the checker's requirement tuple -/
 def toReqs (c : DefaultReqs.Cfg) (act : Nat → Bool) (kinds : List ReqKind) : List Req := toReqsFrom c act 0 kinds
 
-def falsOf (c : DefaultReqs.Cfg) (kinds : List ReqKind) (w : World) (i : Nat) : Bool :=
+/-- what `falsifiedBy` of requirement `i` does on the sample `w`: `none` = raises RejectionException -/
+def falsOf (c : DefaultReqs.Cfg) (kinds : List ReqKind) (w : World) (i : Nat) : Option Bool :=
   match kinds[i]? with
-  | some k => falsified c w k
-  | none => false
+  | some k => if w.raises k then none else some (falsified c w k)
+  | none => some false
 
 /-- `self.defaultRequirements + self.userRequirements` -/
 def allKinds (defaults : List ReqKind) (nUser : Nat) : List ReqKind :=
@@ -31,7 +32,7 @@ def allKinds (defaults : List ReqKind) (nUser : Nat) : List ReqKind :=
 
 /-- one candidate of the rejection loop: `none` = sampling raised RejectionException -/
 def attemptOf (c : DefaultReqs.Cfg) (kinds : List ReqKind) : Option World × List Rat → Attempt
-  | (none, ts) => ⟨true, fun _ => false, ts⟩
+  | (none, ts) => ⟨true, fun _ => some false, ts⟩
   | (some w, ts) => ⟨false, falsOf c kinds w, ts⟩
 
 end Scenic.SceneReqs
